@@ -100,3 +100,20 @@ pub fn rows_well_formed(rows: &[Row]) -> bool {
     }
     true
 }
+
+// ---------------------------------------------------------------------------------------------
+// the edit maps on line numbers, written from the property statements (C12, C13, C15)
+
+/// insert k lines at p: lines at or after p move down by k
+pub fn pi_insert(x: i32, p: i32, k: i32) -> i32 { if x >= p { x + k } else { x } }
+/// delete k lines at p: the band [p, p+k) disappears, later lines move up by k
+pub fn pi_delete(x: i32, p: i32, k: i32) -> Option<i32> {
+    if x < p { Some(x) } else if x < p + k { None } else { Some(x - k) }
+}
+/// move line m by d: m lands on m+d, the lines in between shift by one the other way
+pub fn sigma_move(x: i32, m: i32, d: i32) -> i32 {
+    if x == m { m + d }
+    else if d > 0 && m < x && x <= m + d { x - 1 }
+    else if d < 0 && m + d <= x && x < m { x + 1 }
+    else { x }
+}
